@@ -90,4 +90,15 @@ def histCheck (maxB : Nat) (blocking : Bool) (dropped : Nat) (allEnded allUnsamp
   let bad := if s.batches.flatten.any (allUnsampled.contains ·) then "S6:unsampled-exported" :: bad else bad
   (bad, s.f22)
 
+/-- the ids of the `ended` events of a history -/
+def endedIds (h : List Ev) : List Nat := h.filterMap fun | .ended id => some id | _ => none
+
+/-- the ids of the `endedUnsampled` events of a history -/
+def unsampledIds (h : List Ev) : List Nat := h.filterMap fun | .endedUnsampled id => some id | _ => none
+
+/-- the oracle exactly as the driver applies it to a recorded history: the sets of ended sampled / unsampled
+span ids are read off the history itself -/
+def histJudge (maxB : Nat) (blocking : Bool) (dropped : Nat) (h : List Ev) : List String × Bool :=
+  histCheck maxB blocking dropped (endedIds h) (unsampledIds h) h
+
 end Otel.C01.Spec
